@@ -168,7 +168,14 @@ theorem md_step_descends (bp : CliqueVec ℝ → CliqueVec ℝ)
 
 /-- **(4) with (3) discharged**: for an exact oracle, any loss whose gradient is laid out on the
 cliques, a start laid out on the cliques and any initial step (no sign condition is needed: the
-test only uses `alpha · dL·(nu − mu)`, which is nonnegative for every real `alpha`) -/
+test only uses `alpha · dL·(nu − mu)`, which is nonnegative for every real `alpha`).
+
+CONDITIONAL on `hbp : ExactOracle d cliques h T bp`, an oracle `CliqueVec ℝ → CliqueVec ℝ` that is exact OVER ℝ (log-space
+parameters in, `T · Σ weight / partitionFn` out, with a real `exp`).  No theorem here instantiates `bp` with the code's oracle:
+`GM.beliefPropagation` is proved exact (C01 `bp_marginals`) at the exp-space reading `LogOf K`, where `exp`/`log` are `id`;
+the join "the `ℝ`-instance of `beliefPropagation` (with `Real.exp` / `Real.log`) satisfies `ExactOracle`" is NOT proved.  So
+`md_*_exact` say: IF mirror descent is run with an oracle exact over ℝ THEN …; that the shipped oracle is one is supported by C01
+(at `LogOf K`) and by the `armijo_audit` runs, not by a Lean theorem. -/
 theorem md_no_forced_descent_exact {d : Dom} {cliques : List Clique} (L : Layout d cliques)
     (h : (Attr → Nat) → ℝ) (hh : ∀ σ, 0 ≤ h σ) (hpos : 0 < S d d.attrs h) (T : ℝ) (hT : 0 < T)
     (bp : CliqueVec ℝ → CliqueVec ℝ) (hbp : ExactOracle d cliques h T bp)
@@ -179,7 +186,8 @@ theorem md_no_forced_descent_exact {d : Dom} {cliques : List Clique} (L : Layout
       (Lv ≤ (lossgrad (bp theta0)).1 ∨ mdForced bp lossgrad iters theta0 alpha0 = true) :=
   MD.md_no_forced_descent_exact_aux L h hh hpos T hT bp hbp lossgrad hgrad iters theta0 h0 alpha0
 
-/-- iteration by iteration, for an exact oracle -/
+/-- iteration by iteration, for an exact oracle (same condition: `hbp` is a hypothesis about an oracle exact over ℝ, see
+`md_no_forced_descent_exact`) -/
 theorem md_step_descends_exact {d : Dom} {cliques : List Clique} (L : Layout d cliques)
     (h : (Attr → Nat) → ℝ) (hh : ∀ σ, 0 ≤ h σ) (hpos : 0 < S d d.attrs h) (T : ℝ) (hT : 0 < T)
     (bp : CliqueVec ℝ → CliqueVec ℝ) (hbp : ExactOracle d cliques h T bp)
